@@ -204,6 +204,29 @@ func (c *Ctx) Field(rel, typ, field string) *types.Var {
 	if v != nil && !v.IsField() {
 		return nil
 	}
+	if v == nil {
+		// not under this name: the field (or its struct type) may have been renamed
+		p := c.Pkg(rel)
+		if p == nil {
+			return nil
+		}
+		for _, n := range p.Types.Scope().Names() {
+			tn, ok := p.Types.Scope().Lookup(n).(*types.TypeName)
+			if !ok || an.PinnedTypeName(p.Types, n) != typ {
+				continue
+			}
+			st, ok := tn.Type().Underlying().(*types.Struct)
+			if !ok {
+				continue
+			}
+			for i := 0; i < st.NumFields(); i++ {
+				if an.FieldName(st.Field(i)) == field {
+					c.Anchors["renamed field: "+typ+"."+field] = n + "." + st.Field(i).Name()
+					return st.Field(i)
+				}
+			}
+		}
+	}
 	return v
 }
 
